@@ -1,5 +1,1115 @@
+//! rs2v: a small Rust -> Gallina translator for the arithmetic / decision core of ethereum_ssz.
+//!
+//! It parses the crate's source with `syn`, finds the target functions listed in `TARGETS`, and
+//! prints a Coq file in which every target is a Gallina definition obtained *syntactically* from
+//! the Rust text (a shallow embedding in the `outcome` monad of Base.v: `Ok` / `Err` / `Panic`).
+//! `GenEquiv.v` then proves each generated definition equal to the hand-written model definition,
+//! so the theorems about the model are, for these functions, theorems about what the source says
+//! now.  The translator is part of the trusted base (DESIGN.md); its rules are deliberately few:
+//!
+//!   usize / u8 / u32 values        -> N            `a + b`, `a - b`, `a * b` on them are checked
+//!                                                   (`usize_add` ..: `Panic` on overflow/underflow)
+//!   `/` `%` by a non-zero literal  -> N.div / N.modulo
+//!   comparisons, `&&`, `||`, `!`   -> N.ltb .., andb, orb, negb
+//!   &[u8], Vec<u8>, SmallVec<..>   -> list
+//!   Option<T> / Result<T, E>       -> option T / outcome T (error payloads are erased)
+//!   `e?`                           -> monadic bind
+//!   x[a..b], x[a..], x[i]          -> index_range / index_from / index_at (`Panic` when out of range)
+//!   x.get(a..b) ..                 -> get_range .. (option)
+//!   if / else, match on Ordering   -> if / match on N.compare
+//!   `&mut self` methods            -> state-passing: self -> outcome Self
+//!   `for x in e.windows(2) { .. }` -> monadic fold over `windows2`
+//!   closures                       -> fun
+//! Anything else is reported as untranslatable for that function (the definition is omitted and
+//! GenEquiv.v no longer compiles: the translation tie is then reported as broken, never silently
+//! dropped).
+use std::collections::HashMap;
+use std::fmt::Write as _;
+use syn::{BinOp, Block, Expr, FnArg, ImplItem, Item, Lit, Member, Pat, ReturnType, Stmt, Type, UnOp};
+
+type R<T> = Result<T, String>;
+
+struct Target {
+    file: &'static str,
+    /// last path segment of the impl's self type, or "" for a free function
+    imp: &'static str,
+    name: &'static str,
+    coq: &'static str,
+}
+
+const TARGETS: &[Target] = &[
+    Target { file: "ssz/src/decode.rs", imp: "", name: "sanitize_offset", coq: "sanitize_offset" },
+    Target { file: "ssz/src/decode.rs", imp: "", name: "decode_offset", coq: "decode_offset" },
+    Target { file: "ssz/src/decode.rs", imp: "", name: "read_offset", coq: "read_offset" },
+    Target { file: "ssz/src/union_selector.rs", imp: "UnionSelector", name: "new", coq: "union_selector_new" },
+    Target { file: "ssz/src/decode.rs", imp: "", name: "split_union_bytes", coq: "split_union_bytes" },
+    Target { file: "ssz/src/encode.rs", imp: "", name: "encode_length", coq: "encode_length" },
+    Target { file: "ssz/src/bitfield.rs", imp: "", name: "bytes_for_bit_len", coq: "bytes_for_bit_len" },
+    Target { file: "ssz/src/decode.rs", imp: "SszDecoderBuilder", name: "register_type_parameterized", coq: "builder_register" },
+    Target { file: "ssz/src/decode.rs", imp: "SszDecoderBuilder", name: "finalize", coq: "builder_finalize" },
+    Target { file: "ssz/src/encode.rs", imp: "SszEncoder", name: "append_parameterized", coq: "encoder_append" },
+    Target { file: "ssz/src/encode.rs", imp: "SszEncoder", name: "finalize", coq: "encoder_finalize" },
+    Target { file: "ssz/src/legacy.rs", imp: "", name: "encode_four_byte_union_selector", coq: "encode_four_byte_union_selector" },
+    Target { file: "ssz/src/legacy.rs", imp: "", name: "read_four_byte_union_selector", coq: "read_four_byte_union_selector" },
+];
+
+/// structs translated to records: (file, name)
+const RECORDS: &[(&str, &str)] = &[
+    ("ssz/src/decode.rs", "Offset"),
+    ("ssz/src/decode.rs", "SszDecoderBuilder"),
+    ("ssz/src/encode.rs", "SszEncoder"),
+];
+
+/// integer constants translated to definitions: (file, name)
+const CONSTS: &[(&str, &str)] = &[
+    ("ssz/src/lib.rs", "BYTES_PER_LENGTH_OFFSET"),
+    ("ssz/src/lib.rs", "BYTES_PER_UNION_SELECTOR"),
+    ("ssz/src/lib.rs", "MAX_UNION_SELECTOR"),
+];
+
+#[derive(Clone, Copy, PartialEq, Debug)]
+enum Kind {
+    /// a pure Gallina term
+    Pure,
+    /// a term of type `outcome T`
+    Comp,
+}
+
+struct Cx {
+    fresh: usize,
+    /// pending monadic bindings of the statement being translated, innermost last
+    binds: Vec<(String, String)>,
+    /// name of the record `self` is an instance of
+    self_rec: Option<String>,
+    /// record name -> field names
+    records: HashMap<String, Vec<String>>,
+    /// names (functions) known to return `Result` (translated as outcome)
+    res_fns: HashMap<String, String>,
+    /// closure-typed parameters: calling them on a buffer returns the new buffer
+    fn_params: Vec<String>,
+    notes: Vec<String>,
+}
+
+fn tokens<T: quote::ToTokens>(t: &T) -> String {
+    let s = t.to_token_stream().to_string();
+    if s.len() > 90 { format!("{} ..", &s[..90]) } else { s }
+}
+
+fn path_last(p: &syn::Path) -> String {
+    p.segments.last().map(|s| s.ident.to_string()).unwrap_or_default()
+}
+
+fn path_str(p: &syn::Path) -> String {
+    p.segments.iter().map(|s| s.ident.to_string()).collect::<Vec<_>>().join("::")
+}
+
+fn int_lit(e: &Expr) -> Option<u128> {
+    match e {
+        Expr::Lit(l) => match &l.lit {
+            Lit::Int(i) => i.base10_parse::<u128>().ok(),
+            _ => None,
+        },
+        Expr::Paren(p) => int_lit(&p.expr),
+        _ => None,
+    }
+}
+
+impl Cx {
+    fn new(records: HashMap<String, Vec<String>>, res_fns: HashMap<String, String>) -> Self {
+        Cx { fresh: 0, binds: vec![], self_rec: None, records, res_fns, fn_params: vec![], notes: vec![] }
+    }
+
+    fn var(&mut self, hint: &str) -> String {
+        self.fresh += 1;
+        format!("{}_{}", hint, self.fresh)
+    }
+
+    /// Binds a computation and returns the variable standing for its value.
+    fn bind(&mut self, comp: String, hint: &str) -> String {
+        let v = self.var(hint);
+        self.binds.push((v.clone(), comp));
+        v
+    }
+
+    /// Wraps `body` (a term of type outcome _) in the pending binds from position `from` on.
+    fn wrap(&mut self, from: usize, body: String) -> String {
+        let mut out = body;
+        while self.binds.len() > from {
+            let (v, c) = self.binds.pop().unwrap();
+            out = format!("do {} <- {};\n{}", v, c, out);
+        }
+        out
+    }
+
+    fn field_proj(&self, rec: &str, f: &str) -> String {
+        format!("{}_{}", rec, f)
+    }
+
+    // ---------------------------------------------------------------------------------------
+    // expressions: returns a pure term (computations are bound on the way)
+
+    fn val(&mut self, e: &Expr) -> R<String> {
+        let (t, k) = self.expr(e)?;
+        Ok(match k {
+            Kind::Pure => t,
+            Kind::Comp => self.bind(t, "t"),
+        })
+    }
+
+    fn closure1(&mut self, e: &Expr, want: Kind) -> R<String> {
+        match e {
+            Expr::Closure(c) => {
+                let mut names = vec![];
+                for p in &c.inputs {
+                    names.push(self.pat_name(p)?);
+                }
+                let from = self.binds.len();
+                let (body, k) = self.expr(&c.body)?;
+                let body = match (k, want) {
+                    (Kind::Pure, Kind::Pure) => {
+                        if self.binds.len() != from {
+                            return Err(format!("closure body needs the monad but a pure function is expected: {}", tokens(e)));
+                        }
+                        body
+                    }
+                    (Kind::Pure, Kind::Comp) => self.wrap(from, format!("Ok {}", paren(&body))),
+                    (Kind::Comp, Kind::Comp) => self.wrap(from, body),
+                    (Kind::Comp, Kind::Pure) => return Err(format!("closure body is a computation but a pure function is expected: {}", tokens(e))),
+                };
+                Ok(format!("(fun {} => {})", names.join(" "), body))
+            }
+            Expr::Path(p) => {
+                let name = path_str(&p.path);
+                if let Some(c) = self.res_fns.get(&name) {
+                    if want == Kind::Comp { Ok(c.clone()) } else { Err(format!("{} returns a Result where a pure function is expected", name)) }
+                } else if path_last(&p.path) == "Self" || name.ends_with("Self") {
+                    Ok("(fun x => x)".into())
+                } else {
+                    Err(format!("unknown function value {}", name))
+                }
+            }
+            _ => Err(format!("unsupported function argument: {}", tokens(e))),
+        }
+    }
+
+    fn pat_name(&mut self, p: &Pat) -> R<String> {
+        match p {
+            Pat::Ident(i) => Ok(coq_ident(&i.ident.to_string())),
+            Pat::Wild(_) => Ok("_".into()),
+            Pat::Type(t) => self.pat_name(&t.pat),
+            Pat::Reference(r) => self.pat_name(&r.pat),
+            Pat::Tuple(t) => {
+                let mut names = vec![];
+                for e in &t.elems {
+                    names.push(self.pat_name(e)?);
+                }
+                Ok(format!("'({})", names.join(", ")))
+            }
+            _ => Err(format!("unsupported pattern: {}", tokens(p))),
+        }
+    }
+
+    fn expr(&mut self, e: &Expr) -> R<(String, Kind)> {
+        use Kind::*;
+        match e {
+            Expr::Paren(p) => self.expr(&p.expr),
+            Expr::Group(p) => self.expr(&p.expr),
+            Expr::Reference(r) => self.expr(&r.expr),
+            Expr::Unary(u) => match u.op {
+                UnOp::Deref(_) => self.expr(&u.expr),
+                UnOp::Not(_) => {
+                    let v = self.val(&u.expr)?;
+                    Ok((format!("(negb {})", v), Pure))
+                }
+                _ => Err(format!("unsupported unary operator: {}", tokens(e))),
+            },
+            Expr::Lit(l) => match &l.lit {
+                Lit::Int(i) => Ok((i.base10_digits().to_string(), Pure)),
+                Lit::Bool(b) => Ok((if b.value { "true" } else { "false" }.to_string(), Pure)),
+                _ => Err(format!("unsupported literal: {}", tokens(e))),
+            },
+            Expr::Path(p) => {
+                let s = path_str(&p.path);
+                Ok((match s.as_str() {
+                    "None" => "None".to_string(),
+                    "usize::MAX" => "usize_max".to_string(),
+                    "u8::MAX" => "255".to_string(),
+                    "self" => "self".to_string(),
+                    _ => coq_ident(&path_last(&p.path)),
+                }, Pure))
+            }
+            Expr::Field(f) => {
+                let base = self.val(&f.base)?;
+                match &f.member {
+                    Member::Named(id) => {
+                        let fname = id.to_string();
+                        // which record?  `self.f`, or a variable of a known record type
+                        let rec = self.record_of_field(&fname).ok_or_else(|| format!("field {} of an unknown record", fname))?;
+                        Ok((format!("({} {})", self.field_proj(&rec, &fname), base), Pure))
+                    }
+                    Member::Unnamed(i) => Ok((format!("({} {})", if i.index == 0 { "fst" } else { "snd" }, base), Pure)),
+                }
+            }
+            Expr::Cast(c) => {
+                let v = self.val(&c.expr)?;
+                let ty = tokens(&c.ty);
+                Ok((match ty.as_str() {
+                    "usize" | "u64" | "u128" => v,
+                    "u32" => format!("({} mod 4294967296)", v),
+                    "u8" => format!("({} mod 256)", v),
+                    _ => return Err(format!("unsupported cast to {}", ty)),
+                }, Pure))
+            }
+            Expr::Binary(b) => {
+                match b.op {
+                    BinOp::And(_) | BinOp::Or(_) => {
+                        let l = self.val(&b.left)?;
+                        let from = self.binds.len();
+                        let r = self.val(&b.right)?;
+                        if self.binds.len() != from {
+                            return Err(format!("right operand of a lazy boolean operator needs the monad: {}", tokens(e)));
+                        }
+                        let op = if matches!(b.op, BinOp::And(_)) { "&&" } else { "||" };
+                        return Ok((format!("({} {} {})", l, op, r), Pure));
+                    }
+                    _ => {}
+                }
+                let l = self.val(&b.left)?;
+                let r = self.val(&b.right)?;
+                let lit_nonzero = int_lit(&b.right).map(|n| n != 0).unwrap_or(false);
+                Ok(match b.op {
+                    BinOp::Lt(_) => (format!("({} <? {})", l, r), Pure),
+                    BinOp::Gt(_) => (format!("({} <? {})", r, l), Pure),
+                    BinOp::Le(_) => (format!("({} <=? {})", l, r), Pure),
+                    BinOp::Ge(_) => (format!("({} <=? {})", r, l), Pure),
+                    BinOp::Eq(_) => (format!("({} =? {})", l, r), Pure),
+                    BinOp::Ne(_) => (format!("(negb ({} =? {}))", l, r), Pure),
+                    BinOp::Add(_) => (format!("usize_add {} {}", l, r), Comp),
+                    BinOp::Sub(_) => (format!("usize_sub {} {}", l, r), Comp),
+                    BinOp::Mul(_) => (format!("usize_mul {} {}", l, r), Comp),
+                    BinOp::Div(_) if lit_nonzero => (format!("({} / {})", l, r), Pure),
+                    BinOp::Rem(_) if lit_nonzero => (format!("({} mod {})", l, r), Pure),
+                    BinOp::Div(_) => (format!("usize_div {} {}", l, r), Comp),
+                    BinOp::Rem(_) => (format!("usize_rem {} {}", l, r), Comp),
+                    _ => return Err(format!("unsupported binary operator: {}", tokens(e))),
+                })
+            }
+            Expr::Tuple(t) => {
+                if t.elems.is_empty() {
+                    return Ok(("tt".into(), Pure));
+                }
+                let mut vs = vec![];
+                for x in &t.elems {
+                    vs.push(self.val(x)?);
+                }
+                Ok((format!("({})", vs.join(", ")), Pure))
+            }
+            Expr::Try(t) => {
+                let (c, k) = self.expr(&t.expr)?;
+                if k != Comp {
+                    return Err(format!("`?` applied to something that is not a Result: {}", tokens(&t.expr)));
+                }
+                let v = self.bind(c, "q");
+                Ok((v, Pure))
+            }
+            Expr::Index(ix) => {
+                let base = self.val(&ix.expr)?;
+                match &*ix.index {
+                    Expr::Range(r) => {
+                        let a = match &r.start { Some(s) => self.val(s)?, None => "0".into() };
+                        match &r.end {
+                            Some(end) => {
+                                let b = self.val(end)?;
+                                Ok((format!("index_range {} {} {}", base, a, b), Comp))
+                            }
+                            None => Ok((format!("index_from {} {}", base, a), Comp)),
+                        }
+                    }
+                    i => {
+                        let i = self.val(i)?;
+                        Ok((format!("index_at {} {}", base, i), Comp))
+                    }
+                }
+            }
+            Expr::Struct(s) => {
+                let name = path_last(&s.path);
+                let rec = if name == "Self" { self.self_rec.clone().ok_or("Self outside an impl")? } else { name };
+                let fields = self.records.get(&rec).cloned().ok_or_else(|| format!("struct literal of unknown record {}", rec))?;
+                let mut given: HashMap<String, String> = HashMap::new();
+                for f in &s.fields {
+                    if let Member::Named(id) = &f.member {
+                        let v = self.val(&f.expr)?;
+                        given.insert(id.to_string(), v);
+                    }
+                }
+                let mut parts = vec![];
+                for f in &fields {
+                    let v = given.get(f).ok_or_else(|| format!("field {} missing in struct literal", f))?;
+                    parts.push(format!("{} := {}", self.field_proj(&rec, f), v));
+                }
+                Ok((format!("{{| {} |}}", parts.join("; ")), Pure))
+            }
+            Expr::Array(a) if a.elems.is_empty() => Ok(("[]".into(), Pure)),
+            Expr::Call(c) => {
+                let f = match &*c.func {
+                    Expr::Path(p) => path_str(&p.path),
+                    other => return Err(format!("unsupported callee: {}", tokens(other))),
+                };
+                match f.as_str() {
+                    "Ok" => {
+                        let v = self.val(&c.args[0])?;
+                        Ok((format!("Ok {}", paren(&v)), Comp))
+                    }
+                    "Err" => Ok(("Err".into(), Comp)),
+                    "Some" => {
+                        let v = self.val(&c.args[0])?;
+                        Ok((format!("(Some {})", v), Pure))
+                    }
+                    "std::cmp::max" | "cmp::max" | "max" => {
+                        let a = self.val(&c.args[0])?;
+                        let b = self.val(&c.args[1])?;
+                        Ok((format!("(N.max {} {})", a, b), Pure))
+                    }
+                    "std::cmp::min" | "cmp::min" | "min" => {
+                        let a = self.val(&c.args[0])?;
+                        let b = self.val(&c.args[1])?;
+                        Ok((format!("(N.min {} {})", a, b), Pure))
+                    }
+                    "u32::from_le_bytes" => {
+                        let a = self.val(&c.args[0])?;
+                        Ok((format!("(le_val {})", a), Pure))
+                    }
+                    "std::default::Default::default" | "Default::default" => Ok(("DEFAULT".into(), Pure)),
+                    _ => {
+                        if self.fn_params.contains(&f) {
+                            // a `Fn(&mut Vec<u8>)` parameter applied to a buffer: handled at statement level
+                            return Err(format!("call of closure parameter {} outside statement position", f));
+                        }
+                        let mut args = vec![];
+                        for a in &c.args {
+                            args.push(self.val(a)?);
+                        }
+                        if let Some(cn) = self.res_fns.get(&f).cloned() {
+                            Ok((format!("{} {}", cn, args.join(" ")), Comp))
+                        } else {
+                            Err(format!("call of unknown function {}", f))
+                        }
+                    }
+                }
+            }
+            Expr::MethodCall(m) => self.method(m),
+            Expr::If(_) | Expr::Match(_) | Expr::Block(_) => {
+                // value-position conditional: translate as a computation
+                let from = self.binds.len();
+                let t = self.tail(e, &mut |_cx, v| Ok(format!("Ok {}", paren(&v))))?;
+                let _ = from;
+                Ok((t, Comp))
+            }
+            Expr::Macro(m) => {
+                let name = path_last(&m.mac.path);
+                match name.as_str() {
+                    "smallvec" | "vec" if m.mac.tokens.is_empty() => Ok(("[]".into(), Pure)),
+                    "unreachable" | "panic" => Ok(("Panic".into(), Comp)),
+                    _ => Err(format!("unsupported macro in expression position: {}!", name)),
+                }
+            }
+            _ => Err(format!("unsupported expression: {}", tokens(e))),
+        }
+    }
+
+    fn record_of_field(&self, fname: &str) -> Option<String> {
+        // prefer the record of `self`; otherwise the unique record that has such a field
+        if let Some(r) = &self.self_rec {
+            if self.records.get(r).map(|fs| fs.iter().any(|f| f == fname)).unwrap_or(false) {
+                return Some(r.clone());
+            }
+        }
+        let mut hits: Vec<&String> = self.records.iter().filter(|(_, fs)| fs.iter().any(|f| f == fname)).map(|(r, _)| r).collect();
+        hits.sort();
+        // `offset` exists both in Offset and SszEncoder: outside SszEncoder's impl it is Offset's
+        hits.retain(|r| Some((*r).clone()) != self.self_rec);
+        hits.first().map(|r| (*r).clone())
+    }
+
+    fn method(&mut self, m: &syn::ExprMethodCall) -> R<(String, Kind)> {
+        use Kind::*;
+        let name = m.method.to_string();
+        // receivers that are Results (ok_or .. and_then) must be kept as computations
+        if name == "and_then" {
+            let (r, k) = self.expr(&m.receiver)?;
+            if k != Comp {
+                return Err(format!("and_then on a non-Result: {}", tokens(&m.receiver)));
+            }
+            let f = self.closure1(&m.args[0], Comp)?;
+            return Ok((format!("bind ({}) {}", r, f), Comp));
+        }
+        let r = self.val(&m.receiver)?;
+        let arg = |cx: &mut Cx, i: usize| -> R<String> { cx.val(&m.args[i]) };
+        Ok(match name.as_str() {
+            "len" => (format!("(llen {})", r), Pure),
+            "is_empty" => (format!("(llen {} =? 0)", r), Pure),
+            "first" => (format!("(hd_error {})", r), Pure),
+            "last" => (format!("(last_error {})", r), Pure),
+            "copied" | "cloned" | "clone" | "iter" | "to_vec" | "as_slice" => (r, Pure),
+            "is_none" => (format!("(is_none {})", r), Pure),
+            "is_some" => (format!("(negb (is_none {}))", r), Pure),
+            "is_some_and" => {
+                let f = self.closure1(&m.args[0], Pure)?;
+                (format!("(is_some_and {} {})", r, f), Pure)
+            }
+            "map" => {
+                let f = self.closure1(&m.args[0], Pure)?;
+                (format!("(option_map {} {})", f, r), Pure)
+            }
+            "filter" => {
+                let f = self.closure1(&m.args[0], Pure)?;
+                (format!("(opt_filter {} {})", f, r), Pure)
+            }
+            "ok_or" => (format!("ok_or {}", r), Comp),
+            "checked_add" => {
+                let a = arg(self, 0)?;
+                (format!("(checked_add {} {})", r, a), Pure)
+            }
+            "div_ceil" => {
+                let a = arg(self, 0)?;
+                (format!("(div_ceil {} {})", r, a), Pure)
+            }
+            "to_le_bytes" => (format!("(le_bytes 8 {})", r), Pure),
+            "cmp" => {
+                let a = arg(self, 0)?;
+                (format!("(N.compare {} {})", r, a), Pure)
+            }
+            "windows" => {
+                if int_lit(&m.args[0]) != Some(2) {
+                    return Err("windows(n) only for n = 2".into());
+                }
+                (format!("(windows2 {})", r), Pure)
+            }
+            "get" => match &m.args[0] {
+                Expr::Range(rg) => {
+                    let a = match &rg.start { Some(s) => self.val(s)?, None => "0".into() };
+                    match &rg.end {
+                        Some(end) => {
+                            let b = self.val(end)?;
+                            (format!("(get_range {} {} {})", r, a, b), Pure)
+                        }
+                        None => (format!("(get_from {} {})", r, a), Pure),
+                    }
+                }
+                i => {
+                    let i = self.val(i)?;
+                    (format!("(get_at {} {})", r, i), Pure)
+                }
+            },
+            "expect" | "unwrap" => (format!("unwrap_or_panic {}", r), Comp),
+            _ => return Err(format!("unsupported method .{}(): {}", name, tokens(m))),
+        })
+    }
+
+    // ---------------------------------------------------------------------------------------
+    // statements and tail positions.  `k` finishes the translation with the block's value.
+
+    fn tail(&mut self, e: &Expr, k: &mut dyn FnMut(&mut Cx, String) -> R<String>) -> R<String> {
+        match e {
+            Expr::Paren(p) => self.tail(&p.expr, k),
+            Expr::Block(b) => self.block(&b.block.stmts, k),
+            Expr::If(i) => self.if_tail(i, k),
+            Expr::Match(m) => self.match_tail(m, k),
+            Expr::Return(r) => {
+                let inner = r.expr.as_ref().ok_or("return without a value")?;
+                self.ret(inner)
+            }
+            // `Ok(x)` in tail position: the function's value is x
+            Expr::Call(c) if matches!(&*c.func, Expr::Path(p) if path_str(&p.path) == "Ok") && c.args.len() == 1 => {
+                let from = self.binds.len();
+                let v = self.val(&c.args[0])?;
+                let body = k(self, v)?;
+                Ok(self.wrap(from, body))
+            }
+            _ => {
+                let from = self.binds.len();
+                let (t, kind) = self.expr(e)?;
+                let body = match kind {
+                    Kind::Pure => k(self, t)?,
+                    Kind::Comp => {
+                        // a computation in tail position: its value is the block's value
+                        if t == "Err" || t == "Panic" {
+                            t
+                        } else {
+                            let mark = self.binds.len();
+                            let v = self.bind(t.clone(), "r");
+                            let body = k(self, v.clone())?;
+                            if body == format!("Ok {}", v) && self.binds.len() == mark + 1 {
+                                // do v <- t; Ok v   =   t
+                                self.binds.pop();
+                                t
+                            } else {
+                                body
+                            }
+                        }
+                    }
+                };
+                Ok(self.wrap(from, body))
+            }
+        }
+    }
+
+    /// `return e` / a function's final expression where the function returns a Result.
+    fn ret(&mut self, e: &Expr) -> R<String> {
+        let from = self.binds.len();
+        let (t, kind) = self.expr(e)?;
+        let body = match kind {
+            Kind::Comp => t,
+            Kind::Pure => format!("Ok {}", paren(&t)),
+        };
+        Ok(self.wrap(from, body))
+    }
+
+    fn if_tail(&mut self, i: &syn::ExprIf, k: &mut dyn FnMut(&mut Cx, String) -> R<String>) -> R<String> {
+        let from = self.binds.len();
+        let out = match &*i.cond {
+            Expr::Let(l) => {
+                // if let Some(x) = e { A } else { B }
+                let scrut = self.val(&l.expr)?;
+                let var = match &*l.pat {
+                    Pat::TupleStruct(ts) if path_last(&ts.path) == "Some" && ts.elems.len() == 1 => self.pat_name(&ts.elems[0])?,
+                    p => return Err(format!("unsupported if-let pattern: {}", tokens(p))),
+                };
+                let a = self.block(&i.then_branch.stmts, k)?;
+                let b = match &i.else_branch {
+                    Some((_, e)) => self.tail(e, k)?,
+                    None => k(self, "tt".into())?,
+                };
+                format!("match {} with\n| Some {} =>\n{}\n| None =>\n{}\nend", scrut, var, a, b)
+            }
+            c => {
+                let c = self.val(c)?;
+                let a = self.block(&i.then_branch.stmts, k)?;
+                let b = match &i.else_branch {
+                    Some((_, e)) => self.tail(e, k)?,
+                    None => k(self, "tt".into())?,
+                };
+                format!("if {} then\n{}\nelse\n{}", c, a, b)
+            }
+        };
+        Ok(self.wrap(from, out))
+    }
+
+    fn match_tail(&mut self, m: &syn::ExprMatch, k: &mut dyn FnMut(&mut Cx, String) -> R<String>) -> R<String> {
+        let from = self.binds.len();
+        let scrut = self.val(&m.expr)?;
+        let mut arms = vec![];
+        for arm in &m.arms {
+            let pat = match &arm.pat {
+                Pat::Path(p) => match path_last(&p.path).as_str() {
+                    "Less" => "Lt".to_string(),
+                    "Greater" => "Gt".to_string(),
+                    "Equal" => "Eq".to_string(),
+                    "None" => "None".to_string(),
+                    other => return Err(format!("unsupported match pattern {}", other)),
+                },
+                Pat::Ident(id) if id.ident == "None" => "None".to_string(),
+                Pat::TupleStruct(ts) if path_last(&ts.path) == "Some" => format!("Some {}", self.pat_name(&ts.elems[0])?),
+                p => return Err(format!("unsupported match pattern: {}", tokens(p))),
+            };
+            let body = self.tail(&arm.body, k)?;
+            arms.push(format!("| {} =>\n{}", pat, body));
+        }
+        let out = format!("match {} with\n{}\nend", scrut, arms.join("\n"));
+        Ok(self.wrap(from, out))
+    }
+
+    fn block(&mut self, stmts: &[Stmt], k: &mut dyn FnMut(&mut Cx, String) -> R<String>) -> R<String> {
+        if stmts.is_empty() {
+            return k(self, "tt".into());
+        }
+        let (first, rest) = stmts.split_first().unwrap();
+        let from = self.binds.len();
+        let out = match first {
+            Stmt::Local(l) => {
+                let init = l.init.as_ref().ok_or("let without initializer")?;
+                // `let mut array: [u8; N] = Default::default(); array.clone_from_slice(x);` idiom
+                if tokens(&init.expr).contains("default") {
+                    if let Some(Stmt::Expr(Expr::MethodCall(mc), _)) = rest.first() {
+                        if mc.method == "clone_from_slice" || mc.method == "copy_from_slice" {
+                            let name = self.pat_name(&l.pat)?;
+                            let n = array_len_of_pat(&l.pat).ok_or("array idiom without a length")?;
+                            let src = self.val(&mc.args[0])?;
+                            let body = self.block(&rest[1..], k)?;
+                            let out = format!("if llen {} =? {} then\nlet {} := {} in\n{}\nelse Panic", src, n, name, src, body);
+                            return Ok(self.wrap(from, out));
+                        }
+                    }
+                }
+                // `let mut bytes = [0; N]; bytes.copy_from_slice(&x[..]);`
+                if let Expr::Repeat(rp) = &*init.expr {
+                    if let Some(Stmt::Expr(Expr::MethodCall(mc), _)) = rest.first() {
+                        if mc.method == "copy_from_slice" || mc.method == "clone_from_slice" {
+                            let name = self.pat_name(&l.pat)?;
+                            let n = self.val(&rp.len)?;
+                            let src = self.val(&mc.args[0])?;
+                            let body = self.block(&rest[1..], k)?;
+                            let out = format!("if llen {} =? {} then\nlet {} := {} in\n{}\nelse Panic", src, n, name, src, body);
+                            return Ok(self.wrap(from, out));
+                        }
+                    }
+                }
+                let name = self.pat_name(&l.pat)?;
+                let v = self.val(&init.expr)?;
+                let body = self.block(rest, k)?;
+                format!("let {} := {} in\n{}", name, v, body)
+            }
+            Stmt::Expr(e, semi) => {
+                let is_mutation = matches!(e, Expr::Assign(_) | Expr::ForLoop(_))
+                    || matches!(e, Expr::Binary(b) if matches!(b.op, BinOp::AddAssign(_)));
+                if rest.is_empty() && semi.is_none() && !is_mutation {
+                    return self.tail(e, k);
+                }
+                self.stmt_expr(e, rest, k)?
+            }
+            Stmt::Macro(m) => {
+                let name = path_last(&m.mac.path);
+                if name == "debug_assert" || name == "debug_assert_eq" {
+                    self.notes.push(format!("{}!({}) ignored (release semantics)", name, m.mac.tokens));
+                    self.block(rest, k)?
+                } else {
+                    return Err(format!("unsupported macro statement {}!", name));
+                }
+            }
+            Stmt::Item(_) => return Err("nested item".into()),
+        };
+        Ok(self.wrap(from, out))
+    }
+
+    /// `self.<field>` as the target of a mutation.
+    fn self_field(&self, e: &Expr) -> Option<String> {
+        match e {
+            Expr::Field(f) => match (&*f.base, &f.member) {
+                (Expr::Path(p), Member::Named(id)) if path_str(&p.path) == "self" => Some(id.to_string()),
+                _ => None,
+            },
+            Expr::Reference(r) => self.self_field(&r.expr),
+            Expr::Paren(p) => self.self_field(&p.expr),
+            _ => None,
+        }
+    }
+
+    fn set_self(&self, field: &str, v: &str) -> R<String> {
+        let rec = self.self_rec.clone().ok_or("mutation of self outside an impl")?;
+        Ok(format!("set_{}_{} self {}", rec, field, paren(v)))
+    }
+
+    fn stmt_expr(&mut self, e: &Expr, rest: &[Stmt], k: &mut dyn FnMut(&mut Cx, String) -> R<String>) -> R<String> {
+        match e {
+            // self.f = e;     self.f[i] = e;
+            Expr::Assign(a) => {
+                if let Some(f) = self.self_field(&a.left) {
+                    let v = self.val(&a.right)?;
+                    let upd = self.set_self(&f, &v)?;
+                    let body = self.block(rest, k)?;
+                    return Ok(format!("let self := {} in\n{}", upd, body));
+                }
+                if let Expr::Index(ix) = &*a.left {
+                    if let Some(f) = self.self_field(&ix.expr) {
+                        let i = self.val(&ix.index)?;
+                        let v = self.val(&a.right)?;
+                        let rec = self.self_rec.clone().unwrap();
+                        let cur = format!("({} self)", self.field_proj(&rec, &f));
+                        let nv = self.bind(format!("set_at {} {} {}", cur, i, paren(&v)), "upd");
+                        let upd = self.set_self(&f, &nv)?;
+                        let body = self.block(rest, k)?;
+                        return Ok(format!("let self := {} in\n{}", upd, body));
+                    }
+                }
+                Err(format!("unsupported assignment: {}", tokens(e)))
+            }
+            // self.f += e;
+            Expr::Binary(b) if matches!(b.op, BinOp::AddAssign(_)) => {
+                let f = self.self_field(&b.left).ok_or_else(|| format!("unsupported += target: {}", tokens(e)))?;
+                let rec = self.self_rec.clone().unwrap();
+                let cur = format!("({} self)", self.field_proj(&rec, &f));
+                let r = self.val(&b.right)?;
+                let nv = self.bind(format!("usize_add {} {}", cur, r), "s");
+                let upd = self.set_self(&f, &nv)?;
+                let body = self.block(rest, k)?;
+                Ok(format!("let self := {} in\n{}", upd, body))
+            }
+            Expr::MethodCall(m) => {
+                let name = m.method.to_string();
+                if let Some(f) = self.self_field(&m.receiver) {
+                    let rec = self.self_rec.clone().unwrap();
+                    let cur = format!("({} self)", self.field_proj(&rec, &f));
+                    match name.as_str() {
+                        "push" => {
+                            let v = self.val(&m.args[0])?;
+                            let upd = self.set_self(&f, &format!("{} ++ [{}]", cur, v))?;
+                            let body = self.block(rest, k)?;
+                            return Ok(format!("let self := {} in\n{}", upd, body));
+                        }
+                        "extend_from_slice" => {
+                            let v = self.val(&m.args[0])?;
+                            let upd = self.set_self(&f, &format!("{} ++ {}", cur, v))?;
+                            let body = self.block(rest, k)?;
+                            return Ok(format!("let self := {} in\n{}", upd, body));
+                        }
+                        "append" => {
+                            // a.append(&mut b): a := a ++ b; b := []
+                            let g = self.self_field(&m.args[0]).ok_or("append of something that is not a field of self")?;
+                            let other = format!("({} self)", self.field_proj(&rec, &g));
+                            let upd1 = self.set_self(&f, &format!("{} ++ {}", cur, other))?;
+                            let upd2 = self.set_self(&g, "[]")?;
+                            let body = self.block(rest, k)?;
+                            return Ok(format!("let self := {} in\nlet self := {} in\n{}", upd1, upd2, body));
+                        }
+                        _ => {}
+                    }
+                }
+                Err(format!("unsupported statement: {}", tokens(e)))
+            }
+            // ssz_append(self.buf);   ssz_append(&mut self.variable_bytes);
+            Expr::Call(c) => {
+                if let Expr::Path(p) = &*c.func {
+                    let fname = path_str(&p.path);
+                    if self.fn_params.contains(&fname) && c.args.len() == 1 {
+                        if let Some(f) = self.self_field(&c.args[0]) {
+                            let rec = self.self_rec.clone().unwrap();
+                            let cur = format!("({} self)", self.field_proj(&rec, &f));
+                            let upd = self.set_self(&f, &format!("{} {}", coq_ident(&fname), cur))?;
+                            let body = self.block(rest, k)?;
+                            return Ok(format!("let self := {} in\n{}", upd, body));
+                        }
+                    }
+                }
+                Err(format!("unsupported call statement: {}", tokens(e)))
+            }
+            // if c { return Err(..) }   (no else) followed by the rest;  or a conditional mutation
+            Expr::If(i) => {
+                // an `if` followed by further statements has type (): every branch that does not
+                // return falls through to `rest` with the (possibly updated) state
+                let mut k2 = |cx: &mut Cx, _v: String| cx.block(rest, k);
+                self.if_tail(i, &mut k2)
+            }
+            Expr::Match(m) => {
+                let mut k2 = |cx: &mut Cx, _v: String| cx.block(rest, k);
+                self.match_tail(m, &mut k2)
+            }
+            Expr::ForLoop(fl) => {
+                // for x in e { body }  over a list: monadic fold carrying `self`
+                let x = self.pat_name(&fl.pat)?;
+                let coll = self.val(&fl.expr)?;
+                let from = self.binds.len();
+                let body = self.block(&fl.body.stmts, &mut |_cx, _v| Ok("Ok self".to_string()))?;
+                let body = self.wrap(from, body);
+                let st = self.bind(format!("fold_m (fun self {} =>\n{}) {} self", x, body, coll), "st");
+                let after = self.block(rest, k)?;
+                Ok(format!("let self := {} in\n{}", st, after))
+            }
+            Expr::Return(r) => {
+                let inner = r.expr.as_ref().ok_or("return without a value")?;
+                self.ret(inner)
+            }
+            _ => Err(format!("unsupported statement: {}", tokens(e))),
+        }
+    }
+}
+
+fn array_len_of_pat(p: &Pat) -> Option<String> {
+    if let Pat::Type(t) = p {
+        if let Type::Array(a) = &*t.ty {
+            return Some(coq_ident(&tokens(&a.len)));
+        }
+    }
+    None
+}
+
+fn paren(s: &str) -> String {
+    fn wrapped(s: &str, open: char, close: char) -> bool {
+        if !(s.starts_with(open) && s.ends_with(close)) {
+            return false;
+        }
+        let mut depth = 0i32;
+        for (i, c) in s.char_indices() {
+            if c == open {
+                depth += 1;
+            } else if c == close {
+                depth -= 1;
+                if depth == 0 && i != s.len() - 1 {
+                    return false;
+                }
+            }
+        }
+        true
+    }
+    if s.contains(' ') && !wrapped(s, '(', ')') && !(s.starts_with("{|") && s.ends_with("|}")) && !wrapped(s, '[', ']') {
+        format!("({})", s)
+    } else {
+        s.to_string()
+    }
+}
+
+fn coq_ident(s: &str) -> String {
+    match s {
+        "len" => "len_".into(),
+        "end" => "end_".into(),
+        "in" => "in_".into(),
+        "fix" => "fix_".into(),
+        "at" => "at_".into(),
+        "as" => "as_".into(),
+        other => other.replace(' ', ""),
+    }
+}
+
+fn coq_type(t: &Type, records: &HashMap<String, Vec<String>>) -> R<String> {
+    if let Type::Reference(r) = t {
+        return coq_type(&r.elem, records);
+    }
+    if let Type::Paren(p) = t {
+        return coq_type(&p.elem, records);
+    }
+    let s = tokens(t).replace(' ', "");
+    let s = s.replace("&'a", "").replace('&', "");
+    Ok(match s.as_str() {
+        "usize" | "u8" | "u32" | "u64" => "N".into(),
+        "bool" => "bool".into(),
+        "[u8]" | "Vec<u8>" => "bytes".into(),
+        "SmallVec8<[u8]>" => "(list bytes)".into(),
+        "Option<usize>" => "(option N)".into(),
+        "UnionSelector" => "N".into(),
+        _ => {
+            if let Some(inner) = s.strip_prefix("SmallVec8<").and_then(|x| x.strip_suffix('>')) {
+                if records.contains_key(inner) {
+                    return Ok(format!("(list {})", inner));
+                }
+            }
+            if records.contains_key(&s) {
+                s
+            } else if s.starts_with("[u8;") {
+                "bytes".into()
+            } else {
+                return Err(format!("unsupported type {}", s));
+            }
+        }
+    })
+}
+
 fn main() {
-    let src = std::fs::read_to_string(std::env::args().nth(1).unwrap()).unwrap();
-    let f = syn::parse_file(&src).unwrap();
-    println!("{} items", f.items.len());
+    let repo = std::env::args().nth(1).unwrap_or_else(|| "/repo".into());
+    let mut files: HashMap<String, syn::File> = HashMap::new();
+    let mut wanted: Vec<&str> = TARGETS.iter().map(|t| t.file).collect();
+    wanted.extend(RECORDS.iter().map(|r| r.0));
+    wanted.extend(CONSTS.iter().map(|r| r.0));
+    for f in wanted {
+        if !files.contains_key(f) {
+            let src = std::fs::read_to_string(format!("{}/{}", repo, f)).unwrap_or_default();
+            match syn::parse_file(&src) {
+                Ok(p) => {
+                    files.insert(f.to_string(), p);
+                }
+                Err(e) => {
+                    println!("(* rs2v: cannot parse {}: {} *)", f, e);
+                }
+            }
+        }
+    }
+    let mut out = String::new();
+    out.push_str("(* @generated by /verif/rs2v from the Rust sources of /repo -- do not edit.\n   Every definition below is a syntactic translation of the named source item (rules: rs2v/src/main.rs). *)\nFrom SSZ Require Import Base RustSem.\nOpen Scope N_scope.\n\nModule Gen.\n\n");
+
+    // constants
+    for (file, name) in CONSTS {
+        let mut done = false;
+        if let Some(f) = files.get(*file) {
+            for it in &f.items {
+                if let Item::Const(c) = it {
+                    if c.ident == name {
+                        if let Some(n) = int_lit(&c.expr) {
+                            let _ = writeln!(out, "(* {} :: const {} *)\nDefinition {} : N := {}.\n", file, name, name, n);
+                            done = true;
+                        }
+                    }
+                }
+            }
+        }
+        if !done {
+            let _ = writeln!(out, "(* rs2v: UNTRANSLATABLE const {} in {} *)\n", name, file);
+        }
+    }
+
+    // records
+    let mut records: HashMap<String, Vec<String>> = HashMap::new();
+    let mut rec_types: Vec<(String, Vec<(String, String)>)> = vec![];
+    for (file, name) in RECORDS {
+        if let Some(f) = files.get(*file) {
+            for it in &f.items {
+                if let Item::Struct(s) = it {
+                    if s.ident == name {
+                        let fields: Vec<String> = s.fields.iter().filter_map(|f| f.ident.as_ref().map(|i| i.to_string())).collect();
+                        records.insert(name.to_string(), fields);
+                    }
+                }
+            }
+        }
+    }
+    for (file, name) in RECORDS {
+        if let Some(f) = files.get(*file) {
+            for it in &f.items {
+                if let Item::Struct(s) = it {
+                    if s.ident == name {
+                        let mut fs = vec![];
+                        let mut ok = true;
+                        for fld in &s.fields {
+                            let fname = fld.ident.as_ref().unwrap().to_string();
+                            match coq_type(&fld.ty, &records) {
+                                Ok(t) => fs.push((fname, t)),
+                                Err(e) => {
+                                    let _ = writeln!(out, "(* rs2v: UNTRANSLATABLE struct {}: {} *)\n", name, e);
+                                    ok = false;
+                                }
+                            }
+                        }
+                        if ok {
+                            rec_types.push((name.to_string(), fs));
+                        }
+                    }
+                }
+            }
+        }
+    }
+    for (name, fs) in &rec_types {
+        let _ = writeln!(out, "Record {} := {{ {} }}.", name, fs.iter().map(|(f, t)| format!("{}_{} : {}", name, f, t)).collect::<Vec<_>>().join("; "));
+        for (f, t) in fs {
+            let parts: Vec<String> = fs.iter().map(|(g, _)| if g == f { format!("{}_{} := v", name, g) } else { format!("{}_{} := {}_{} r", name, g, name, g) }).collect();
+            let _ = writeln!(out, "Definition set_{}_{} (r : {}) (v : {}) : {} := {{| {} |}}.", name, f, name, t, name, parts.join("; "));
+        }
+        out.push('\n');
+    }
+
+    // which targets return Result (so that calls to them are computations)
+    let mut res_fns: HashMap<String, String> = HashMap::new();
+    let mut found: Vec<(&Target, syn::Signature, Block)> = vec![];
+    for t in TARGETS {
+        let mut hit = None;
+        if let Some(f) = files.get(t.file) {
+            for it in &f.items {
+                match it {
+                    Item::Fn(func) if t.imp.is_empty() && func.sig.ident == t.name => hit = Some((func.sig.clone(), (*func.block).clone())),
+                    Item::Impl(imp) if !t.imp.is_empty() && imp.trait_.is_none() => {
+                        let self_ty = match &*imp.self_ty {
+                            Type::Path(p) => path_last(&p.path),
+                            _ => String::new(),
+                        };
+                        if self_ty == t.imp {
+                            for ii in &imp.items {
+                                if let ImplItem::Fn(m) = ii {
+                                    if m.sig.ident == t.name {
+                                        hit = Some((m.sig.clone(), m.block.clone()));
+                                    }
+                                }
+                            }
+                        }
+                    }
+                    _ => {}
+                }
+            }
+        }
+        match hit {
+            Some((sig, block)) => {
+                let ret = match &sig.output { ReturnType::Type(_, t) => tokens(&**t), ReturnType::Default => "()".into() };
+                let key = if t.imp.is_empty() { t.name.to_string() } else { format!("{}::{}", t.imp, t.name) };
+                let _ = ret;
+                res_fns.insert(key.clone(), t.coq.to_string());
+                if !res_fns.contains_key(t.name) {
+                    res_fns.insert(t.name.to_string(), t.coq.to_string());
+                }
+                found.push((t, sig, block));
+            }
+            None => {
+                let _ = writeln!(out, "(* rs2v: UNTRANSLATABLE {} {}::{}: item not found *)\n", t.file, t.imp, t.name);
+            }
+        }
+    }
+
+    for (t, sig, block) in &found {
+        let mut cx = Cx::new(records.clone(), res_fns.clone());
+        let mut params: Vec<String> = vec![];
+        let mut has_self = false;
+        let mut mut_self = false;
+        let mut err: Option<String> = None;
+        if !t.imp.is_empty() {
+            cx.self_rec = Some(t.imp.to_string());
+        }
+        for a in &sig.inputs {
+            match a {
+                FnArg::Receiver(r) => {
+                    has_self = true;
+                    mut_self = r.mutability.is_some();
+                    params.push(format!("(self : {})", t.imp));
+                }
+                FnArg::Typed(pt) => {
+                    let name = match &*pt.pat { Pat::Ident(i) => coq_ident(&i.ident.to_string()), p => tokens(p) };
+                    let tys = tokens(&*pt.ty);
+                    if tys.len() == 1 && tys.chars().all(|c| c.is_uppercase()) {
+                        // a generic `F: Fn(&mut Vec<u8>)` parameter
+                        cx.fn_params.push(name.clone());
+                        params.push(format!("({} : bytes -> bytes)", name));
+                    } else {
+                        match coq_type(&pt.ty, &records) {
+                            Ok(ct) => params.push(format!("({} : {})", name, ct)),
+                            Err(e) => err = Some(e),
+                        }
+                    }
+                }
+            }
+        }
+        let ret = match &sig.output { ReturnType::Type(_, t) => tokens(&**t), ReturnType::Default => "()".into() };
+        let returns_result = ret.starts_with("Result");
+        let body = if let Some(e) = err { Err(e) } else if mut_self {
+            // state-passing: the value of the block is discarded, the final state is returned
+            cx.block(&block.stmts, &mut |_cx, _v| Ok("Ok self".to_string())).map(|b| fix_mut_self_tail(&b))
+        } else if returns_result {
+            cx.block(&block.stmts, &mut |_cx, v| Ok(format!("Ok {}", paren(&v))))
+        } else {
+            cx.block(&block.stmts, &mut |_cx, v| Ok(format!("Ok {}", paren(&v))))
+        };
+        let _ = has_self;
+        let src_name = if t.imp.is_empty() { t.name.to_string() } else { format!("{}::{}", t.imp, t.name) };
+        match body {
+            Ok(b) => {
+                let _ = writeln!(out, "(* {} :: {} *)", t.file, src_name);
+                for n in &cx.notes {
+                    let _ = writeln!(out, "(* note: {} *)", n.replace('"', "'").replace("*)", "* )").replace("(*", "( *"));
+                }
+                let _ = writeln!(out, "Definition {} {} :=\n{}.\n", t.coq, params.join(" "), indent(&b));
+            }
+            Err(e) => {
+                let _ = writeln!(out, "(* rs2v: UNTRANSLATABLE {} :: {}: {} *)\n", t.file, src_name, e.replace('"', "'").replace("*)", "* )").replace("(*", "( *"));
+            }
+        }
+    }
+    out.push_str("End Gen.\n");
+    print!("{}", out);
+}
+
+/// In a `&mut self` method returning `Result<(), E>`, a tail `Ok(())` means "return the state".
+fn fix_mut_self_tail(b: &str) -> String {
+    b.replace("Ok tt", "Ok self")
+}
+
+fn indent(s: &str) -> String {
+    let mut depth: i32 = 1;
+    let mut out = String::new();
+    for line in s.lines() {
+        let l = line.trim();
+        if l.starts_with("else") || l.starts_with("| ") || l == "end" {
+            depth = std::cmp::max(1, depth - 1);
+        }
+        for _ in 0..depth {
+            out.push_str("  ");
+        }
+        out.push_str(l);
+        out.push('\n');
+        if l.ends_with("then") || l.ends_with("else") || l.ends_with("=>") || l.ends_with("with") {
+            depth += 1;
+        }
+    }
+    out.trim_end().to_string()
 }
